@@ -1957,14 +1957,16 @@ Proof. intros R Hh. destruct o as [b|i| | |]; cbn [HarrModel.xstep].
   - destruct (clear_rep lay g R) as (R' & M'). cbn [fst]. eauto.
   - cbn [fst]. eauto.
   - cbn [fst]. eauto. Qed.
+Lemma xrun_rep_gen m : (forall k, home k < m)%nat -> forall os lay g, Rep lay g -> maxs g = m ->
+  exists lay', Rep lay' (fst (xrun g os)) /\ maxs (fst (xrun g os)) = m.
+Proof. intros Hh. induction os as [|o r IH]; intros lay g R M.
+  - cbn [HarrModel.xrun fst]. eauto.
+  - cbn [HarrModel.xrun]. destruct (xstep_rep lay g o R ltac:(rewrite M; exact Hh)) as (lay1 & R1 & M1).
+    destruct (xstep g o) as [g1 x]. cbn [fst] in R1, M1.
+    assert (M1' : maxs g1 = m) by congruence.
+    destruct (IH lay1 g1 R1 M1') as (lay2 & R2 & M2). destruct (xrun g1 r) as [g2 xs]. cbn [fst] in *. exists lay2. split; assumption. Qed.
 Theorem xrun_rep m os : (forall k, home k < m)%nat ->
   exists lay, Rep lay (fst (xrun (init m) os)) /\ maxs (fst (xrun (init m) os)) = m.
-Proof. intros Hh.
-  assert (G : forall os lay g, Rep lay g -> maxs g = m -> exists lay', Rep lay' (fst (xrun g os)) /\ maxs (fst (xrun g os)) = m).
-  { induction os0 as [|o r IH]; intros lay g R M; cbn [HarrModel.xrun]; [cbn [fst]; eauto|].
-    destruct (xstep_rep lay g o R ltac:(rewrite M; exact Hh)) as (lay1 & R1 & M1).
-    destruct (xstep g o) as [g1 x] eqn:E1. cbn [fst] in R1, M1.
-    destruct (IH lay1 g1 R1 ltac:(congruence)) as (lay2 & R2 & M2). destruct (xrun g1 r) as [g2 xs]. cbn [fst] in *. eauto. }
-  apply (G os [] (init m) (rep_init m) eq_refl). Qed.
+Proof. intros Hh. exact (xrun_rep_gen m Hh os [] (init m) (rep_init m) eq_refl). Qed.
 End Harr.
 Print Assumptions run_refines.
